@@ -365,7 +365,10 @@ impl Family for A4 {
                     let bytes = if *skip_ss {
                         let mut rr = Rng::new(s.entropy_tag ^ (oi as u64) << 8 ^ 0x5515);
                         let e = rr.arr32();
-                        forge_opt(&pk(&e), &rp::x25519(&e, &pubs[*recipient]), &cl, None, &pubs[*recipient], &payload, &pt)
+                        // ... and the static-static step is either left out or done with the all-zero secret that
+                        // the low-order static key forces (what a reader computes if it does not refuse it)
+                        let ss_zero = ((s.entropy_tag >> 3) ^ oi as u64) & 1 == 1;
+                        forge_opt(&pk(&e), &rp::x25519(&e, &pubs[*recipient]), &cl, if ss_zero { Some(&zero) } else { None }, &pubs[*recipient], &payload, &pt)
                     } else {
                         forge(&e_pub, &zero, &cl, &ss, &pubs[*recipient], &payload, &pt, &crate::gen::full_chunking(pt.len(), 65536))
                     };
